@@ -65,6 +65,11 @@ pub trait Hooks: Send + Sync + 'static {
     false
   }
 
+  /// `true` = the explorer's background index thread exits at once.
+  fn skip_index_thread(&self) -> bool {
+    false
+  }
+
   /// Replacement for process randomness used when building transactions.
   fn entropy(&self) -> Option<[u8; 32]> {
     None
@@ -134,6 +139,10 @@ pub(crate) fn batch_delivered() {
 
 pub(crate) fn router(router: &axum::Router) -> bool {
   hooks().is_some_and(|hooks| hooks.router(router))
+}
+
+pub(crate) fn skip_index_thread() -> bool {
+  hooks().is_some_and(|hooks| hooks.skip_index_thread())
 }
 
 pub(crate) fn entropy() -> Option<[u8; 32]> {
